@@ -562,10 +562,16 @@ pub enum MOp {
     RegRefusedGuard(u64),
     /// an unchecked registration the OS refuses (SIGKILL: its disposition can be read, not changed)
     RegRefused,
+    /// other code sets the signal to be ignored for a while, remembering what was installed (what
+    /// system(3) does with SIGINT / SIGQUIT) ...
+    OverrideIgn(i32),
+    /// ... and puts back what it remembered
+    RestoreSaved(i32),
 }
 
 pub struct RS {
     ids: Mutex<HashMap<u64, reg::SigId>>,
+    saved: Mutex<Option<libc::sigaction>>,
 }
 
 fn make_action(tag: u64, pause: bool) -> impl Fn() + Send + Sync + 'static {
@@ -655,6 +661,18 @@ fn run_mops(s: &RS, ops: &[MOp], pause: bool) {
                 };
                 sched::log("regrefused_ret", r.is_err() as u64, 1);
             }
+            MOp::OverrideIgn(sig) => unsafe {
+                let mut new: libc::sigaction = std::mem::zeroed();
+                new.sa_sigaction = libc::SIG_IGN;
+                let mut old: libc::sigaction = std::mem::zeroed();
+                libc::sigaction(*sig, &new, &mut old);
+                *s.saved.lock().unwrap() = Some(old);
+            },
+            MOp::RestoreSaved(sig) => unsafe {
+                if let Some(old) = s.saved.lock().unwrap().take() {
+                    libc::sigaction(*sig, &old, std::ptr::null_mut());
+                }
+            },
             MOp::RegRefused => {
                 sched::log("regrefused_call", 0, 0);
                 let r = unsafe { reg::register_unchecked(libc::SIGKILL, |_| ()) };
@@ -1075,7 +1093,7 @@ pub fn build_reg(p: RP) -> Scenario<Arc<RS>> {
             let r = std::panic::catch_unwind(|| reg::unregister(id));
             assert!(r.is_err(), "the removal was expected to unwind");
         }
-        let s = RS { ids: Mutex::new(HashMap::new()) };
+        let s = RS { ids: Mutex::new(HashMap::new()), saved: Mutex::new(None) };
         run_mops(&s, &pp.pre, pp.pause_in_action);
         Arc::new(s)
     };
@@ -1657,6 +1675,15 @@ pub fn scenarios(prop: &str, tier: Tier) -> Vec<Item> {
             p.deliverers = vec![vec![S1, S1]];
             p.foreign_installer = Some(S1);
             v.push(item(build_reg(p), b(2, 3), "another thread replaces the pre-existing handler with a plain sigaction call at any instant before the library's handler is installed: afterwards the handler that was installed at the take-over is the one chained"));
+            for (name, d) in [("chain_after_temporary_override_plain", Disp::Plain), ("chain_after_temporary_override_siginfo", Disp::Info)] {
+                let mut p = rp(name, "C04");
+                p.disps = vec![(S1, d), (S2, Disp::Plain)];
+                p.pre = vec![Reg(S1, 1), OverrideIgn(S1), Reg(S1, 2), Unreg(1), RestoreSaved(S1)];
+                p.mutators = vec![vec![Reg(S1, 3), Unreg(2)], vec![Reg(S2, 5)]];
+                p.deliverers = vec![vec![S1, S1]];
+                p.nest = vec![S1];
+                v.push(item(build_reg(p), b(2, 3), "after the take-over other code sets the signal to be ignored for a while and puts back what it found (as system(3) does); a registration and a removal happen meanwhile: afterwards every delivery still chains the pre-existing handler once, first"));
+            }
             let mut p = rp("chain_two_signals_both_foreign", "C04");
             p.disps = vec![(S1, Disp::Info), (S2, Disp::Plain)];
             p.mutators = vec![vec![Reg(S1, 1)], vec![Reg(S2, 5)]];
